@@ -69,6 +69,10 @@ struct basic_gate_sender {
     R r;
     Gate* g;
     unifex::manual_lifetime<cb_t> callback;
+    // the result is handed to the receiver by reference to storage owned by this operation (like just()/just_error()):
+    // a parent that destroys this operation before it has consumed the reference reads freed memory
+    struct Res { long v; std::exception_ptr e; };
+    Res* res = nullptr;
 
     op(Gate* gg, R&& rr) : r((R &&) rr), g(gg) {
       usim::np_scope np;
@@ -86,6 +90,7 @@ struct basic_gate_sender {
       g->destroyed = true;
       g->destroy_seq = seq();
       g->op = nullptr;
+      if (res) { res->~Res(); usim_free(res); }
     }
     void start() noexcept {
       Gate* gg = g;
@@ -136,10 +141,12 @@ struct basic_gate_sender {
       int ch = why == 2 ? CH_DONE : gg->outcome;
       long payload = gg->payload;
       { usim::np_scope np; gg->delivered = ch; KIT_TRACE("gate %d completes with %s (why %d)", gg->id, ch_name(ch), why); }
+      Res* rs = nullptr;
+      if (ch != CH_DONE) { rs = ::new (usim_alloc(sizeof(Res))) Res{payload, ch == CH_ERROR ? std::make_exception_ptr(gate_error{payload}) : std::exception_ptr{}}; self->res = rs; }
       if (ch == CH_VALUE) {
-        if constexpr (SendsValue) unifex::set_value(std::move(self->r), (long)payload);
+        if constexpr (SendsValue) unifex::set_value(std::move(self->r), std::move(rs->v));
         else std::terminate();  // a no-value gate is never scripted with a value outcome
-      } else if (ch == CH_ERROR) unifex::set_error(std::move(self->r), std::make_exception_ptr(gate_error{payload}));
+      } else if (ch == CH_ERROR) unifex::set_error(std::move(self->r), std::move(rs->e));
       else unifex::set_done(std::move(self->r));
       { usim::np_scope np; gg->complete_end = seq(); }
       return true;
